@@ -304,7 +304,7 @@ CHECKS = {
              "goroutine is recovered by the driver and recorded as a death (lal has no recover there).",
         ref="6/C04", level="model_checking"),
     "C05": dict(
-        technique="TLA+ spec Payloads (grammar of 431 publisher payload classes x 7 timestamp classes composed with a history "
+        technique="TLA+ spec Payloads (grammar of 432 publisher payload classes x 7 timestamp classes composed with a history "
                   "machine of what the stream has seen; TLC explores every reachable history) + replay of every edge through "
                   "Group.OnReadRtmpAvMsg of a real ServerManager with every output enabled, in child processes with a per-call "
                   "watchdog and an idle second stream + TLC trace validation",
@@ -315,8 +315,16 @@ CHECKS = {
              "did not stall, the other stream was served, nothing was altered, fan-out stayed bounded and (predictive "
              "configuration) exactly the predicted consumers received the message.",
         note="Decided over payload classes, not every byte value; 'time bounded by size' is a 400 ms + 1 us/byte watchdog that "
-             "must reproduce twice plus a fan-out bound; quick replays a seed-chosen 4000 of ~14300 covering paths, thorough "
-             "every edge three times; not all 2^9 output combinations.",
+             "must reproduce twice plus a fan-out bound. The stages lal ends by count (rtmp2MpegtsFilter: 16 messages, "
+             "Rtmp2RtspRemuxer: 16 cached messages, the dummy-audio filter) are part of the history machine: staging macros "
+             "that the driver expands (optional first message + 14 / 15 / 16 copies of a letter that identifies nothing / "
+             "audio only / video only / one of two kinds; under dummy audio also 7 / 8 copies and 1 ms bursts), a second "
+             "consumer set joining before, in the middle of or after the stage (RTMP, HTTP-FLV, HTTP-TS before PAT/PMT "
+             "exists, RTSP at PLAY and RTSP parked at DESCRIBE), then every letter from each of the 153 staged histories. "
+             "Quick: 4000 of the base covering paths + core letters from every staged history + 6000 sampled staged edges; "
+             "thorough: every edge (three covers of the base graph). Not covered: more than one state-changing letter after "
+             "a staged history, counters on the single-letter histories, the remuxers' own counters behind the dummy-audio "
+             "filter, staging in the partial-output configurations, not all 2^9 output combinations.",
         ref="6/C05", level="model_checking"),
 }
 
